@@ -278,3 +278,41 @@ fn seg_builder_finalize_contract() {
         }
     }
 }
+
+
+// ------------------------------------------------------------------ ownership conservation (C04): drop-tracked payloads,
+// the cache is dropped at the end and CBMC's memory-leak check is on (unit K-LEAK)
+
+#[kani::proof]
+#[kani::unwind(34)]
+fn seg_put_leakcheck() {
+    use crate::verif_hooks::gen::*;
+    let pb = any_tracked_abs(N, 1);
+    let pt = any_tracked_abs(N, 1);
+    kani::assume(pb.disjoint(&pt) && values_distinct(&[&pb, &pt]));
+    reset_drops();
+    let mut s = SegmentedCache::verif_from_parts(build_tracked(&pb, PoisonHasher), build_tracked(&pt, PoisonHasher));
+    let k: u8 = kani::any();
+    let v: u8 = kani::any();
+    let which: u8 = kani::any();
+    kani::assume(k < 16 && v >= 16 && v < 32 && which < 2);
+    let before = ids_of(&[&pb, &pt]);
+    kani::assume(before & (1 << v) == 0);
+    let hit = pb.has(k) || pt.has(k);
+    kani::cover!(which == 0 && pb.has(k) && pt.n == pt.cap, "seg tracked put: promotion overflows protected");
+    kani::cover!(which == 0 && !hit && pb.n == pb.cap, "seg tracked put: eviction");
+    kani::cover!(which == 1 && pb.has(k) && pt.n == pt.cap, "seg tracked put_protected: promotion overflows protected");
+    let created = before | (1 << v) | if hit { 0 } else { 1 << k };
+    let r = if which == 0 { s.put(Tk(k), Tv(v)) } else { s.put_protected(Tk(k), Tv(v)) };
+    drop(r);
+    if hit {
+        // the argument key equals a stored key: exactly one of the two objects is dropped, the other stays
+        assert!(drops(k) == 1, "[C04.once] on an update the surplus key object is dropped exactly once");
+        set_drops(k, 0);
+    }
+    let (post, wf) = s.verif_check();
+    assert!(wf, "[C03.wf] segments well formed after put with heap-tracked payloads");
+    assert!(conserved(created, ids_of(&[&post.probationary, &post.protected])), "[C04.once] after put/put_protected every key and value is retained, or was handed back, or was dropped exactly once (never twice, never while retained)");
+    drop(s);
+    assert!(conserved(created, 0), "[C04.drop] dropping the cache releases every retained key and value exactly once");
+}
